@@ -22,9 +22,9 @@ func init() {
 		Level: "exploration",
 		Cases: func(t string) int {
 			if t == "thorough" {
-				return 30000
+				return 40000
 			}
-			return 1600
+			return 4000
 		},
 		Batch: func(t string) int { return 50 },
 		Floors: []string{"histories", "ops_seek", "ops_read", "target_Reader", "target_GenericReader", "target_RowGroupRows", "target_ChunkPages", "target_FileColumnPages", "target_MultiRowGroupRows", "target_NestedMultiRowGroupRows", "target_MultiRowGroupPages",
